@@ -29,6 +29,10 @@ pub struct Expect {
     pub body_text: String,
     /// value inserted by the rule's HTML body filter
     pub body_html: String,
+    /// the HTML body filter's second value (`inner_value`, reported in traces and handed over in the serialised
+    /// action): the explicit one with its references replaced, or the inserted value when the rule gives none
+    #[serde(default)]
+    pub inner_html: Option<String>,
 }
 
 #[derive(Clone, Debug, Serialize, Deserialize)]
@@ -60,9 +64,14 @@ pub enum Ty {
     /// words separated by single spaces: an expression with a literal space (header values only: a space in a
     /// path is percent-encoded by request sanitising, in a host it is not legal)
     Phrase,
+    /// an expression that is a top-level alternation of groups: only the enclosing group added by the library
+    /// keeps the alternatives from splitting the whole pattern
+    AltGroups,
+    /// a top-level alternation of bare branches
+    AltPlain,
 }
 
-pub const TYPES: &[Ty] = &[Ty::Int, Ty::Low, Ty::Enum, Ty::Uuid, Ty::Date, Ty::Any, Ty::Pct, Ty::Up, Ty::Phrase];
+pub const TYPES: &[Ty] = &[Ty::Int, Ty::Low, Ty::Enum, Ty::Uuid, Ty::Date, Ty::Any, Ty::Pct, Ty::Up, Ty::Phrase, Ty::AltGroups, Ty::AltPlain];
 
 impl Ty {
     pub fn expr(&self) -> &'static str {
@@ -76,6 +85,8 @@ impl Ty {
             Ty::Pct => "([\\p{Ll}0-9]|%[0-9A-Z]{2})+?",
             Ty::Up => "([A-Z]+?)",
             Ty::Phrase => "(smart tv|[a-z]+( [a-z]+)*)",
+            Ty::AltGroups => "(?:[0-9]{4})|(?:latest)",
+            Ty::AltPlain => "new|old|[0-9]{2}x",
         }
     }
 
@@ -111,6 +122,8 @@ impl Ty {
             }
             Ty::Up => same(*rng.pick(&["A", "XYZ", "HELLO"])),
             Ty::Phrase => same(*rng.pick(&["smart tv", "a b c", "x", "hello world"])),
+            Ty::AltGroups => same(*rng.pick(&["2024", "latest", "0001", "latest"])),
+            Ty::AltPlain => same(*rng.pick(&["new", "old", "42x"])),
         }
     }
 
@@ -126,6 +139,8 @@ impl Ty {
             Ty::Pct => "ab!c".to_string(),
             Ty::Up => "AB!C".to_string(),
             Ty::Phrase => "smart! tv".to_string(),
+            Ty::AltGroups => rng.pick(&["late!st", "20!24", "2024!"]).to_string(),
+            Ty::AltPlain => rng.pick(&["ne!w", "42!x"]).to_string(),
         }
     }
 }
@@ -531,10 +546,12 @@ fn random_case_unchecked(rng: &mut Rng) -> Case {
     rule.effects.status_code = Some(302);
     rule.effects.variables = variables;
     rule.effects.header_filters = vec![("add".to_string(), "X-Out".to_string(), header_t.clone())];
-    rule.effects.body_filters = vec![
-        json!({"action": "append_text", "content": text_t}),
-        json!({"action": "append_child", "value": html_t, "element_tree": ["html", "body"], "css_selector": null}),
-    ];
+    let inner_t: Option<String> = if rng.coin() { Some(format!("inner {}", refs.iter().map(|r| format!("<@{r}>")).collect::<Vec<_>>().join(""))) } else { None };
+    let mut html_filter = json!({"action": "append_child", "value": html_t, "element_tree": ["html", "body"], "css_selector": null});
+    if let Some(t) = &inner_t {
+        html_filter["inner_value"] = json!(t);
+    }
+    rule.effects.body_filters = vec![json!({"action": "append_text", "content": text_t}), html_filter];
 
     let request = ReqSpec {
         url: full_v,
@@ -564,6 +581,7 @@ fn random_case_unchecked(rng: &mut Rng) -> Case {
             header_value: substitute(&header_t, &subst),
             body_text: substitute(&text_t, &subst),
             body_html: substitute(&html_t, &subst),
+            inner_html: Some(substitute(inner_t.as_deref().unwrap_or(&html_t), &subst)),
         },
         values: placed,
         cache_calls: *rng.pick(&[0u8, 0, 1, 2]),
@@ -648,6 +666,32 @@ pub fn check(case: &Case) -> Result<(), Failure> {
     let want_body = format!("<html><body><p>x</p>{}</body></html>{}", case.expect.body_html, case.expect.body_text);
     if body != want_body {
         return Err(classify("body filter output", &body, &want_body));
+    }
+    if let Some(want_inner) = &case.expect.inner_html {
+        // the second value of an HTML body filter is not inserted into the body; it is what the action hands over
+        // (serialised action) and what traces report
+        let j = serde_json::to_value(&action).unwrap_or(Value::Null);
+        let mut found: Vec<String> = Vec::new();
+        fn walk(v: &Value, found: &mut Vec<String>) {
+            match v {
+                Value::Object(m) => {
+                    if m.contains_key("element_tree") {
+                        if let Some(Value::String(i)) = m.get("inner_value") {
+                            found.push(i.clone());
+                        }
+                    }
+                    for x in m.values() {
+                        walk(x, found);
+                    }
+                }
+                Value::Array(a) => a.iter().for_each(|x| walk(x, found)),
+                _ => {}
+            }
+        }
+        walk(&j, &mut found);
+        if found.len() != 1 || found[0] != *want_inner {
+            return Err(classify("inner value of the HTML body filter (serialised action)", &format!("{found:?}"), want_inner));
+        }
     }
     Ok(())
 }
